@@ -114,6 +114,7 @@ type simscreen struct {
 func (s *simscreen) Init() error {
 	s.evch = make(chan Event, 10)
 	s.quit = make(chan struct{})
+	s.fini = false
 	s.fillchar = 'X'
 	s.fillstyle = StyleDefault
 	s.mouse = false
@@ -143,15 +144,20 @@ func (s *simscreen) Init() error {
 
 func (s *simscreen) Fini() {
 	s.Lock()
+	if s.fini {
+		// a second Fini (possibly from another goroutine) is a no-op
+		s.Unlock()
+		return
+	}
 	s.fini = true
 	s.back.Resize(0, 0)
+	s.physw = 0
+	s.physh = 0
+	s.front = nil
 	s.Unlock()
 	if s.quit != nil {
 		close(s.quit)
 	}
-	s.physw = 0
-	s.physh = 0
-	s.front = nil
 }
 
 func (s *simscreen) SetStyle(style Style) {
